@@ -31,6 +31,7 @@ type CheckCfg struct {
 	Assumptions  []string          `json:"assumptions"`
 	MaxPaths     int               `json:"max_paths,omitempty"`
 	ScanSites    string            `json:"scan_sites,omitempty"` // allow-list of nondeterminism sites (C14)
+	Replayable   []string          `json:"replayable,omitempty"` // harnesses whose counterexamples are replayed natively
 	TimeoutMs    int               `json:"timeout_ms,omitempty"`
 }
 
@@ -69,6 +70,7 @@ func main() {
 		verbose  = flag.Bool("v", false, "verbose")
 		maxPaths = flag.Int("maxpaths", 0, "override the path bound (debug)")
 		scanOnly = flag.Bool("scan", false, "print the nondeterminism sites and exit (debug)")
+		replay   = flag.String("replay", "", "replay a counterexample file natively and exit")
 	)
 	flag.Parse()
 	if t := os.Getenv("VERIF_TIER"); t != "" && !flagSet("tier") {
@@ -113,6 +115,19 @@ func main() {
 		}
 	}
 
+	if *replay != "" {
+		r := replayNative(*verifDir, *repoDir, cc, *replay)
+		bz, _ := json.MarshalIndent(r, "", " ")
+		fmt.Println(string(bz))
+		if r.Supported && r.Confirmed {
+			fmt.Printf("VIOLATION property=%s replay=%s\n", *prop, *replay)
+			os.Exit(1)
+		}
+		if !r.Supported {
+			os.Exit(2)
+		}
+		os.Exit(0)
+	}
 	// ---- load ----
 	overlay := map[string][]byte{}
 	rtSrc, err := os.ReadFile(filepath.Join(*verifDir, "rt", "rt.go"))
@@ -271,7 +286,8 @@ func main() {
 	if cc.ScanSites != "" {
 		extraInconclusive, siteReport = checkSites(prog, harnessFiles, filepath.Join(*verifDir, cc.ScanSites), entries)
 	}
-	code := report(*verifDir, *prop, *tier, seed, t0, loadS, cc, entries, results, knownWhat, *noEvid, prog, extraInconclusive, siteReport)
+	replayer := func(path string) ReplayResult { return replayNative(*verifDir, *repoDir, cc, path) }
+	code := report(*verifDir, *prop, *tier, seed, t0, loadS, cc, entries, results, knownWhat, *noEvid, prog, extraInconclusive, siteReport, replayer)
 	os.Exit(code)
 }
 
